@@ -52,6 +52,18 @@ CLAIMED.update({
    note="mid-record suspensions cannot occur for the peers the property quantifies over (whole records arrive eventually) and are not modelled", ref="6 C08, 7"),
 })
 
+CLAIMED.update({
+ "C09": dict(technique="TLC over Conn.tla with handler programs mixing direct/buffered reads, stream selection and writeable(); every returned value replayed and compared byte for byte on the real AsyncRead/AsyncBufRead impls",
+   text="poll_input is modelled with its three exits (buffered data, flush, parse/read loop) on top of the stream-parser spec, whose invariants already state 'exactly the active stream, once, in order'; the connection model adds the handler-visible sequence: each read / fill_buf result as wire intervals, EOF persistence, set_stream discarding, the writeable flag after every operation. TLC enumerates the transport's behaviour, the harness replays each behaviour on the real Request and compares every returned value.",
+   note="handler programs are a menu (6 programs x 2 roles); buffer sizes 24 and 32", ref="6 C09"),
+ "C11": dict(technique="abort menus in all three models (ReqParser, StreamParser, Conn) checked by TLC and replayed on the code",
+   text="Abort during Params is a row of the request-parser spec (one EndRequest RequestComplete, request discarded, Header mode) checked by RepliesExact/OutcomeExact; abort later is the held-header error of the stream-parser spec (ErrExact, ErrorSticky, DeliveredIsPrefix); the connection model turns it into the handler-visible ConnectionAborted error, the ABRT or handler-chosen status, one EndRequest, and the next request on the same connection. All three are replayed on the code.",
+   note="as C07", ref="6 C11"),
+ "C12": dict(technique="fault injection in Conn.tla (EOF at every inbound offset, read error, write error / zero-length write at every outbound offset), TLC enumerates, behaviours replayed on Token::run under catch_unwind with a poll budget",
+   text="Each behaviour carries one fault at a byte offset; the specification says how the connection ends (which await point fails, what the handler sees, what has been written). The replay checks the same on the real code plus the property's own predicates: no panic, no spinning (bounded polls per transport event), nothing written after a failed write, handler invocations only for complete preambles.",
+   note="fault by offset, one per behaviour; spinning is a poll budget of 32 polls per wire byte + 2000", ref="6 C12"),
+})
+
 NOT_YET = {}
 
 def main():
